@@ -116,6 +116,37 @@ fn iterables(thorough: bool) -> Vec<(String, Vec<Stmt>, Expr, bool)> {
         let items: Vec<Expr> = (0..len).map(|i| num((i as f64 + 1.0) * 10.0)).collect();
         v.push((format!("user collection len={}", len), vec![cursor.clone(), bag.clone()], invoke(var("Bag"), "new", vec![Expr::VecLit(items)]), false));
     }
+    // the protocol offered through fields: `iter` and `next` are closures stored in fields of a plain
+    // instance; and a class-made iterator whose `next` method is shadowed by a field of that name (a member
+    // access finds a field first - a for loop asks for `next` like any other caller)
+    let counting = |limit: f64, factor: f64| -> Expr {
+        lambda_block(
+            &[],
+            vec![
+                st(StmtKind::If(bin(BinOp::Ge, get(var("fo"), "i"), num(limit)), vec![ret(invoke(var("StopIter"), "new", vec![]))], None)),
+                expr_stmt(Expr::CompoundSet(Box::new(var("fo")), "i".into(), BinOp::Add, Box::new(num(1.0)))),
+                ret(bin(BinOp::Mul, get(var("fo"), "i"), num(factor))),
+            ],
+        )
+    };
+    let plain = class_stmt("Plain", None, Some("new"), vec![]);
+    v.push((
+        "protocol through fields only".to_string(),
+        vec![plain, var_stmt("fo", invoke(var("Plain"), "new", vec![])), expr_stmt(set(var("fo"), "i", num(0.0))), expr_stmt(set(var("fo"), "iter", lambda_expr(&[], var("fo")))), expr_stmt(set(var("fo"), "next", counting(3.0, 5.0)))],
+        var("fo"),
+        false,
+    ));
+    let counter_cls = class_stmt(
+        "Shadowed",
+        Some("Iter"),
+        None,
+        vec![
+            method(FnKind::Ctor, "new", &[], vec![expr_stmt(set(Expr::SelfRef, "i", num(0.0)))]),
+            method(FnKind::Method, "iter", &[], vec![ret(Expr::SelfRef)]),
+            method(FnKind::Method, "next", &[], vec![st(StmtKind::If(bin(BinOp::Ge, get(Expr::SelfRef, "i"), num(2.0)), vec![ret(invoke(var("StopIter"), "new", vec![]))], None)), expr_stmt(Expr::CompoundSet(Box::new(Expr::SelfRef), "i".into(), BinOp::Add, Box::new(num(1.0)))), ret(s("from the method"))]),
+        ],
+    );
+    v.push(("next method shadowed by a field".to_string(), vec![counter_cls, var_stmt("fo", invoke(var("Shadowed"), "new", vec![])), expr_stmt(set(var("fo"), "next", counting(3.0, 100.0)))], var("fo"), false));
     v
 }
 
@@ -416,7 +447,7 @@ pub fn run(ctx: &Ctx) -> Report {
     mcheck::fill_report(
         &mut report,
         &stats,
-        "I1: a for loop over every vec/tuple of length 0-3, every range b..e with b,e in [-2,3], every string of up to 2/3 characters over a 1-4-byte alphabet, and user-defined iterables (an iterator: normal, early stop; an iterator whose iter() starts over; a collection whose iter() makes a new cursor object); and 16 ranges with end points at or beyond the largest machine integers, left by break; I2: break/continue/return at each element position, nested loops over one iterable, one shared iterator; I3: every map/filter chain up to depth 2/3 with callbacks {identity, transform, predicate, always false, throwing on the second call}, reduce, collect, bad callbacks - on user-defined iterables both through iter() and directly on the object, on a reused object and after a loop left by break; I4: non-iterables, broken protocols, StopIter subclass, exhausted iterators; I5: push/pop/set of a vec at each position during its own iteration; I6: every ordered pair of ranges with end points in [-2,3] used one after the other in one interpreter (printed, iterated, as index into a vec, a tuple and a string, compared), directly and with nine / seventy other ranges built in between, the first one used again after each. non-trivial = at least two lines or an error.",
+        "I1: a for loop over every vec/tuple of length 0-3, every range b..e with b,e in [-2,3], every string of up to 2/3 characters over a 1-4-byte alphabet, and user-defined iterables (an iterator: normal, early stop; an iterator whose iter() starts over; a collection whose iter() makes a new cursor object; a plain instance offering iter and next through fields; an iterator whose next method is shadowed by a field); and 16 ranges with end points at or beyond the largest machine integers, left by break; I2: break/continue/return at each element position, nested loops over one iterable, one shared iterator; I3: every map/filter chain up to depth 2/3 with callbacks {identity, transform, predicate, always false, throwing on the second call}, reduce, collect, bad callbacks - on user-defined iterables both through iter() and directly on the object, on a reused object and after a loop left by break; I4: non-iterables, broken protocols, StopIter subclass, exhausted iterators; I5: push/pop/set of a vec at each position during its own iteration; I6: every ordered pair of ranges with end points in [-2,3] used one after the other in one interpreter (printed, iterated, as index into a vec, a tuple and a string, compared), directly and with nine / seventy other ranges built in between, the first one used again after each. non-trivial = at least two lines or an error.",
         json!({"sequence_length": 3, "string_chars": if thorough { 3 } else { 2 }, "adapter_depth": if thorough { 3 } else { 2 }}),
     );
     report.assumptions = vec!["vec iteration is by cursor index into the live vec; `for` stops at an instance whose class is exactly StopIter (Appendix A)".into()];
